@@ -43,3 +43,13 @@ Proof. vm_compute. split; reflexivity. Qed.
 Theorem C05_fs_paths_sane :
   forallb (fun p => abs_cleanb p) owned_paths = true /\ existsb (seqb (B "/usr/bin")) owned_paths = true.
 Proof. vm_compute. split; reflexivity. Qed.
+
+(* ---- files.isRelevantForPackager, translated from files/files.go on every run (Gen/BoolFns.v) ---- *)
+From NfpmV Require Import Proofs.StrFnsProofs Gen.BoolFns.
+
+(* for every packager name and every entry: the decision the SOURCE takes about "is this entry for this packager" is the
+   planning model's - the one C05_plan_wellformed, C01, C04, C08 and C13's selection theorems are stated over *)
+Theorem C05_relevance_source_is_the_model :
+  src_is_relevant_translated = true /\ forall p c, src_is_relevant p c = is_relevant p c.
+Proof. split; [reflexivity | exact src_is_relevant_is_model]. Qed.
+Print Assumptions C05_relevance_source_is_the_model.
